@@ -62,6 +62,9 @@ thread_local! {
   /// the realisation of the foreign IOTA DID "fa" for the case being run
   static FA_NOW: std::cell::RefCell<String> = std::cell::RefCell::new(FA.to_string());
 }
+thread_local! {
+  static FA_SPELLING: std::cell::RefCell<Option<String>> = const { std::cell::RefCell::new(None) };
+}
 fn fa_now() -> String {
   FA_NOW.with(|f| f.borrow().clone())
 }
@@ -74,7 +77,20 @@ fn choose_fa(n: &Names, variant: usize) {
     1 => format!("did:iota:tst:{}", n.self_did.tag_str()),
     _ => format!("did:iota:tst:{}", n.target.tag_str()),
   };
+  // how the foreign DID is SPELLED in the document: as is, with the default network written out, or with upper-case
+  // hex digits -- valid IOTA DIDs that are not in normal form; a foreign DID travels verbatim
+  let spelling = match (variant / 18) % 3 {
+    0 => None,
+    // the default network written out (only a DID on the default network can be spelled that way)
+    1 if v == FA => Some(v.replacen("did:iota:", "did:iota:iota:", 1)),
+    // the first six hex digits of the tag in upper case
+    _ => {
+      let at = v.find("0x").unwrap() + 2;
+      Some(format!("{}{}{}", &v[..at], v[at..at + 6].to_uppercase(), &v[at + 6..]))
+    }
+  };
   FA_NOW.with(|f| *f.borrow_mut() = v);
+  FA_SPELLING.with(|f| *f.borrow_mut() = spelling);
 }
 
 fn did_of(tag: &str, own: &IotaDID) -> CoreDID {
@@ -158,6 +174,13 @@ fn build(d: &Value, own: &IotaDID) -> Result<IotaDocument, String> {
     let mut v: Value = serde_json::from_str(&doc.to_json().map_err(|e| e.to_string())?).unwrap();
     v["doc"][REL_JSON[(rot() + 2) % 5]] = json!([format!("{FB}#key-9")]);
     doc = IotaDocument::from_json_value(v).map_err(|e| format!("reference document rejected: {e}"))?;
+  }
+  if let Some(spelling) = FA_SPELLING.with(|f| f.borrow().clone()) {
+    // a non-canonical spelling can only come from the serialised form
+    let text = doc.to_json().map_err(|e| e.to_string())?;
+    if text.contains(&fa_now()) && spelling != fa_now() {
+      doc = IotaDocument::from_json(&text.replace(&fa_now(), &spelling)).map_err(|e| format!("document with a non-canonical foreign DID rejected: {e}"))?;
+    }
   }
   if custom_metadata {
     // further metadata properties exist only in the serialised form
